@@ -474,6 +474,7 @@ class Exec:
 
     def index(self, st, o, i, line=None):
         if o.kind == 'opaque' or i.kind == 'opaque': return V('opaque')
+        if o.kind == 'seq' and o.get('rev'): raise OutOfReach('subscript of a reversed(...) object')
         if o.kind == 'comp': o = self.materialise(st, o)
         if o.kind in ('seq',):
             it = toint(i)
@@ -924,6 +925,10 @@ class Exec:
                 self.axioms += [z3.Length(r) == n, z3.ForAll([j], z3.Implies(z3.And(0 <= j, j < n), r[j] == lo + j))]
                 return V('seq', r, ek=DI)
             if a.kind == 'comp': return self.materialise(st, a)
+            if a.kind == 'seq' and a.get('rev'):         # list(reversed(s))
+                r = self.fresh(a.t.sort(), 'reversed'); j = self.fresh(I, 'rj'); n = z3.Length(a.t)
+                self.axioms += [z3.Length(r) == n, z3.ForAll([j], z3.Implies(z3.And(0 <= j, j < n), r[j] == a.t[n - 1 - j]))]
+                return V('seq', r, **{k: v for k, v in a.x.items() if k != 'rev'})
             if a.kind in ('seq',): return a
             if a.kind == 'set': return V('seq', a.t, **a.x)
             raise OutOfReach(f'list({a.kind})')
@@ -1201,7 +1206,7 @@ class Exec:
             n = z3.Length(src.t)
             j = self.fresh(I, 'cj')
             cst = comp.x['st'].fork(0 <= j, j < n)
-            self.store(comp.x['target'], src.x['ek'].wrap(src.t[j]), cst)
+            self.store(comp.x['target'], src.x['ek'].wrap(src.t[n - 1 - j] if src.get('rev') else src.t[j]), cst)      # reversed(seq): element j is seq[n-1-j]
             save = self.dry; self.dry += 1
             try: el = self.ev(comp.x['elt'], cst)
             finally: self.dry = save
@@ -1215,7 +1220,7 @@ class Exec:
             n = z3.If(hi - lo < 0, 0, hi - lo)
             j = self.fresh(I, 'cj')
             cst = comp.x['st'].fork(0 <= j, j < n)
-            self.store(comp.x['target'], VI(lo + j), cst)
+            self.store(comp.x['target'], VI(hi - 1 - j if src.x.get('rev') else lo + j), cst)
             save = self.dry; self.dry += 1
             try: el = self.ev(comp.x['elt'], cst)
             finally: self.dry = save
